@@ -14,6 +14,7 @@ import (
 )
 
 type ctx struct {
+	seed uint64
 	o    *hx.Out
 	r    *prng.R
 	k    int
@@ -45,6 +46,7 @@ func main() {
 		{"emit", 12, famEmit},
 		{"script", 8, famScript},
 		{"keys", 6, famKeys},
+		{"curves", 6, famCurves},
 		{"nep2", 1, famNEP2},
 	}
 	weights := make([]int, len(fams))
@@ -57,7 +59,7 @@ func main() {
 		if !f.Want(k) {
 			continue
 		}
-		c := &ctx{o: o, r: prng.ForCase(f.Seed, k), k: k, tier: f.Tier, pool: pool}
+		c := &ctx{seed: f.Seed, o: o, r: prng.ForCase(f.Seed, k), k: k, tier: f.Tier, pool: pool}
 		o.Case(k)
 		if k < len(corpus) {
 			o.Count("family:corpus")
